@@ -240,6 +240,9 @@ def py_guard_of(s):
 
 
 def check(ctx):
+    from . import ohs
+
+    ohs.one_hot_switch_dynamic(ctx, "C31")
     ctx.use(REL)
     hw_counter(ctx)
     tagged_counter(ctx)
